@@ -34,6 +34,18 @@ def opFcorr (args impl : List String) : Verdict :=
     | _, _ => .badCase "fcorr"
   | _ => .badCase "fcorr"
 
+/-- `faccseq`: several files loaded one after the other from the same caller buffer / descriptor: every verdict is
+the verdict of the bytes that are there now -/
+def opFaccSeq (args impl : List String) : Verdict :=
+  match args with
+  | rt :: hxs =>
+    match routeMem? rt, hxs.mapM hexToBytes with
+    | some mem, some files =>
+      let rcs := files.map (fun b => toString (R.rc (init mem b)))
+      expectTokens rcs impl [s!"faccseq:{min files.length 9}"]
+    | _, _ => .badCase "faccseq"
+  | _ => .badCase "faccseq"
+
 def bodyTok : R Bytes → String
   | .ok b => bytesToHex b
   | .error e => s!"E{e.code}"
